@@ -93,27 +93,36 @@ def fam_callee_faults(w: World) -> None:
 
 
 def fam_wire_faults(w: World) -> None:
+    """One to three (possibly corrupted) documents, one after another, to one long-lived dispatcher."""
     ch = w.ch
-    info = S.gen_document(ch, allow_junk=True)
-    n = len(info['doc']) if isinstance(info['doc'], list) else 1
+    n_deliveries = 1 + ch.draw(3, 'deliveries')
+    infos = [S.gen_document(ch, allow_junk=True, tok_prefix=f'd{d}_' if d else '') for d in range(n_deliveries)]
+    n = max((len(i['doc']) if isinstance(i['doc'], list) else 1) for i in infos)
     cfg = S.draw_config(ch, n)
-    S.plan_pauses(w, cfg, n + 1)
-    text = info['text']
-    kinds = []
-    if info['shape'] in ('single', 'batch') and ch.flag(3, 4, 'corrupt'):
-        new, kind = S.corrupt_text(ch, text)
-        if new != text:
-            w.fault(kind)
-            kinds.append(kind)
-        text = new
-    w.scenario = {'cfg': cfg, 'text': text if len(text) < 400 else text[:200] + f'...({len(text)} chars)',
-                  'faults': kinds}
-    w.nontrivial = bool(kinds) or info['shape'] != 'single'
-    if S.outside_quantifier(w, text):
-        return
-    ctx = {'async': cfg['async'], 'shape': info['shape'], 'faults': kinds, 'max_batch_size': cfg['max_batch_size']}
+    texts = []
+    for d, info in enumerate(infos):
+        S.plan_pauses(w, cfg, n + 1, tok_prefix=f'd{d}_' if d else '')
+        text = info['text']
+        kinds = []
+        if info['shape'] in ('single', 'batch') and ch.flag(3, 4, 'corrupt'):
+            new, kind = S.corrupt_text(ch, text)
+            if new != text:
+                w.fault(kind)
+                kinds.append(kind)
+            text = new
+        texts.append((text, kinds, info))
+    w.scenario = {'cfg': cfg, 'texts': [t if len(t) < 300 else t[:150] + f'...({len(t)} chars)' for t, _, _ in texts],
+                  'faults': [k for _, k, _ in texts]}
+    w.nontrivial = True
     sut = S.ServerUnderTest(w, cfg)
-    S.judge_delivery(w, PROP, sut, text, ('reference', 'leak'), ctx)
+    for d, (text, kinds, info) in enumerate(texts):
+        if S.outside_quantifier(w, text):
+            continue
+        ctx = {'async': cfg['async'], 'shape': info['shape'], 'faults': kinds, 'max_batch_size': cfg['max_batch_size'],
+               'delivery': d}
+        S.judge_delivery(w, PROP, sut, text, ('reference', 'leak'), ctx)
+        if w.violations:
+            return
 
 
 def systematic_callee(tier: str) -> Iterable[List[int]]:
